@@ -446,6 +446,7 @@ def run(ck):
     for i, (fl, o, d, tag) in enumerate(cases):
         hist_tag[tag] = hist_tag.get(tag, 0) + 1
         ml = model[i]
+        ml, _, m_file = ml.rpartition(' | filemodel=')
         m_head, _, m_evs = ml.partition(' | ')
         m_out = m_head.split(' ', 1)[1] if ' ' in m_head else '?'
         if i in aborts:
@@ -500,6 +501,10 @@ def run(ck):
         # other runs
         rest = dict(kv.split('=', 1) for kv in i_rest.split())
         f_out, _, f_same = rest.get('file', '?,0').rpartition(',')
+        # the Lean model of the file path (readNLFile, page size 4096) executed next to the real ReadNLFile
+        if m_file and not m_out.startswith('ub:') and m_file != '%s,%s' % (f_out, f_same):
+            ck.add_violation('file-model-differs', 'model of NLFileReader::Read gives %s, real ReadNLFile %s,%s on %r (len %d)' % (m_file, f_out, f_same, d[:60], len(d)),
+                             replay_obj(i, {'impl': il[:600], 'model': ml[:300], 'filemodel': m_file}), found_input=False)
         if f_out != i_out or f_same != '1':
             ck.add_violation('file-vs-string', 'ReadNLFile and ReadNLString disagree (%s/%s vs %s) on %r (len %d)' % (f_out, f_same, i_out, d[:60], len(d)),
                              replay_obj(i, {'impl': il[:600]}))
@@ -555,7 +560,7 @@ def run(ck):
         arms[k] = arms.get(k, 0) + 1
     TOPLEVEL = {'H', 'acon', 'lcon', 'obj', 'ece', 'compl', 'term', 'vb', 'cb', 'iv', 'idv', 'col', 'cols', 'func', 'sv', 'sd'}
     for i in range(len(cases)):
-        head, _, evs = model[i].partition(' | ')
+        head, _, evs = model[i].rpartition(' | filemodel=')[0].partition(' | ')
         out = head.split(' ', 1)[1] if ' ' in head else '?'
         f_ = out.split(':')
         if f_[0] in ('rerr', 'berr'):
@@ -640,7 +645,7 @@ def run(ck):
                                'harness/h_nlread.cc recording handler + error-class mapping; checks/c02.py oracle and comparison']
 
 
-EXPECT_THEOREMS = 14
+EXPECT_THEOREMS = 16
 
 
 def replay(ck, path):
